@@ -251,11 +251,11 @@ type didRef struct {
 
 func (g *Gen) addr(i int) string { return g.env.Accs[i%len(g.env.Accs)].Addr.String() }
 
-var topicPool = []string{"a", "a.", "a.b", "a.b-c", "A", "a_b", "ab", "b", "0", "topic-1", "topic-10", "t." + strings.Repeat("x", 68), strings.Repeat("Z", 70), "-", "._-",
+var topicPool = []string{".", "..", "a", "a.", "a.b", "a.b-c", "A", "a_b", "ab", "b", "0", "topic-1", "topic-10", "t." + strings.Repeat("x", 68), strings.Repeat("Z", 70), "-", "._-",
 	// lengths whose length byte (the first byte of the store key part) is itself a character of the name alphabet: 45 '-', 46 '.', 48-57 digits, 65-69 'A'-'E'
 	strings.Repeat("m", 45), "n" + strings.Repeat("m", 45), strings.Repeat("d", 48), strings.Repeat("d", 57), strings.Repeat("E", 65), strings.Repeat("e", 69)}
 // identifier pools: prefixes of one another, separators, case twins, white-space twins ("dn" / "dn " / " dn"), NUL, multi-byte
-var denomPool = []string{"dn", "dn1", "dn/x", "d", "dnx", "den:om", "DN", strings.Repeat("q", 90), "dn\x00x", "dn\x00", "ünï", "a b", "dn ", " dn", "dn\t", "d "}
+var denomPool = []string{"\x00", "\x00\x00", "\x00lab", "dn", "dn1", "dn/x", "d", "dnx", "den:om", "DN", strings.Repeat("q", 90), "dn\x00x", "dn\x00", "ünï", "a b", "dn ", " dn", "dn\t", "d "}
 var tokenPool = []string{"dn", "dn1", "d", "x", "y", "x/y", "x\x00y", "1", "10", "tok", "T", strings.Repeat("k", 120), "\x00", "é", "x ", " x", "tok ", "1\n"}
 
 func GenerateScript(seed uint64, prop, tier string, env *Env) *Script {
@@ -1411,7 +1411,12 @@ func (g *Gen) famDidAdv() {
 		} else {
 			g.tx(MsgSpec{T: "did.Update", F: map[string]string{"did": did, "from": from}, NilDoc: true, Proof: &ProofSpec{Key: k, MethodID: mid, Seq: "cur"}})
 		}
-	case 11: // deactivation proof made for another DID / wrong content
+	case 11: // deactivation proof made for another DID / wrong content / over the stored document (for a DID that was never
+		// updated that is the signature published with its creation, if the sequence were the same)
+		if r.Chance(0.5) {
+			g.tx(MsgSpec{T: "did.Deactivate", F: map[string]string{"did": did, "from": g.addr(r.Intn(NumAccounts))}, Proof: &ProofSpec{Key: k, MethodID: mid, Seq: []string{"cur", "cur-1", "0"}[r.Intn(3)], ContentStored: true}})
+			return
+		}
 		g.tx(MsgSpec{T: "did.Deactivate", F: map[string]string{"did": did, "from": from}, Proof: &ProofSpec{Key: k, MethodID: mid, Seq: "cur", Content: g.env.Dids[other]}})
 	case 12: // two updates signed over the same sequence (exactly one wins)
 		p1 := &ProofSpec{Key: k, MethodID: mid, Seq: "cur"}
